@@ -545,7 +545,7 @@ fn cmd_check(args: &[String]) -> i32 {
             _ => exe.clone(),
         };
         // minimisation is bounded: the first three signatures, 90 s each; the rest get seed-addressed replay files
-        let st = if is_proc || n_viol > 3 { None } else { run_timeout(Command::new(&exe).args(["minimise", "--prop", &prop, "--seed", &seed.to_string(), "--run", &run.to_string(), "--tier", &tier, "--sig", sig, "--out", &path]), 90.0) };
+        let st = if is_proc || n_viol > 3 || std::env::var("RSIM_NO_MINIMISE").is_ok() { None } else { run_timeout(Command::new(&exe).args(["minimise", "--prop", &prop, "--seed", &seed.to_string(), "--run", &run.to_string(), "--tier", &tier, "--sig", sig, "--out", &path]), 90.0) };
         let wrote = matches!(st, Some(s) if s.success()) && std::path::Path::new(&path).exists();
         if !wrote {
             // fall back to a seed-addressed replay file
